@@ -337,6 +337,63 @@ def pops_in_order(b):
     return out
 
 
+COMMUTATIVE = {"ADD", "MUL", "AND", "OR", "XOR", "EQ"}
+
+
+def _pop_calls(root):
+    pops = [(c, T._span_key(c["span"])) for c, _ in F.calls(root) if c.get("k") == "MethodCall" and c["method"] == "pop" and HANDLE in (c.get("recv_ty") or "")]
+    pops.sort(key=lambda x: (x[1][1], x[1][2]))
+    return [c for c, _ in pops]
+
+
+def _binding_init(root, lid):
+    """The expression a local is bound to by an immutable `let` (looking into tuple patterns), or None."""
+    for n, _ in F.walk(root):
+        if n.get("s") != "Let" or "init" not in n:
+            continue
+        pat = n["pat"]
+        if pat.get("p") == "Bind" and pat.get("local") == lid:
+            return n["init"]
+        if pat.get("p") == "Tuple":
+            init = n["init"]
+            while init.get("k") in ("DropTemps", "Use"):
+                init = init["e"]
+            if init.get("k") == "Tup" and len(init["elems"]) == len(pat["pats"]):
+                for sp, el in zip(pat["pats"], init["elems"]):
+                    if sp.get("p") == "Bind" and sp.get("local") == lid:
+                        return el
+    return None
+
+
+def origin_pop(root, expr, pops, depth=0):
+    """Index (in evaluation order) of the stack pop an expression's value comes from, or None."""
+    if depth > 6 or expr is None:
+        return None
+    inside = [i for i, pc in enumerate(pops) if any(x is pc for x, _ in F.walk(expr))]
+    if len(inside) == 1:
+        # only wrappers that keep the value (`?`, constant_fold, clone, references) may surround the pop
+        return inside[0]
+    if inside:
+        return None
+    lid = F.local_of(F.strip(expr))
+    if lid is None:
+        return None
+    return origin_pop(root, _binding_init(root, lid), pops, depth + 1)
+
+
+def derives_from(root, expr, target, depth=0):
+    if depth > 6 or expr is None:
+        return False
+    if any(x is target for x, _ in F.walk(expr)):
+        return True
+    for x, _ in F.walk(expr):
+        if x.get("k") == "Path" and x.get("res") == "local":
+            init = _binding_init(root, x["local"])
+            if init is not None and derives_from(root, init, target, depth + 1):
+                return True
+    return False
+
+
 def check_r072(fx, rep, dm):
     oracle_ops = {r[0]: r for r in tables.read("evm_operands.tsv")}
     opc = {int(r[0], 16): r[1] for r in tables.read("evm_opcodes.tsv")}
@@ -364,7 +421,8 @@ def check_r072(fx, rep, dm):
             still = all(v in structs for v in inner)
             rep.oblige(not still, "R07.2", f"inexact:{mn}", w, f"{mn} is encoded as {node}, which does not denote the EVM result: {exact[4:]}", sample={"rule": "R07.2", "mnemonic": mn, "encoding": node, "exact": False})
             continue
-        pops = pops_in_order(b)
+        root_b = b["hir"]["value"]
+        pops = _pop_calls(root_b)
         want = roles.split(",")
         structs = [(s, ps) for s, ps in F.walk(b["hir"]["value"]) if s.get("k") == "Struct" and s.get("adt") == SVD and s.get("variant") == node]
         if len(structs) != 1:
@@ -374,18 +432,16 @@ def check_r072(fx, rep, dm):
         s, sps = structs[0]
         got = {}
         for f in s["fields"]:
-            lid = F.local_of(f["e"])
-            idx = next((i for i, p in enumerate(pops) if p[0] == lid), None)
-            got[f["field"]] = idx
+            got[f["field"]] = origin_pop(root_b, f["e"], pops)
         ok = len(pops) == len(want) and all(got.get(fld) == i for i, fld in enumerate(want))
+        if not ok and mn in COMMUTATIVE and len(pops) == 2 and sorted(v for v in got.values() if v is not None) == [0, 1]:
+            ok = True  # a + b = b + a: either order denotes the EVM result
         # the node built is what gets pushed
         pushed = False
-        for c, cps in F.calls(b["hir"]["value"]):
-            if c.get("k") == "MethodCall" and c["method"] == "push" and HANDLE in (c.get("recv_ty") or ""):
-                pl = F.local_of(c["args"][0])
-                for st, stps in F.walk(b["hir"]["value"]):
-                    if st.get("s") == "Let" and st["pat"].get("p") == "Bind" and st["pat"]["local"] == pl and "init" in st and any(z is s for z, _ in F.walk(st["init"])):
-                        pushed = True
+        for c, cps in F.calls(root_b):
+            if c.get("k") == "MethodCall" and c["method"] == "push" and HANDLE in (c.get("recv_ty") or "") and c["args"]:
+                if derives_from(root_b, c["args"][0], s):
+                    pushed = True
         needs_push = mn not in ("SELFDESTRUCT",)
         rep.oblige(
             ok and (pushed or not needs_push),
